@@ -73,6 +73,15 @@ pub fn malformed_gen(depth: usize) -> Vec<(String, &'static str, bool)> {
             v.push((text, "unterminated_comment", true));
         }
     }
+    // terminated bit strings with two or more adjacent underscores (the only fault the lexer
+    // knows inside a terminated literal): all bodies over {0, 1, _, __, ___}
+    for (q, _) in [("\"", ()), ("'", ())] {
+        for body in words(&["0", "1", "_", "__", "___"], depth + 1) {
+            if body.contains("__") && body.chars().any(|c| c == '0' || c == '1') {
+                v.push((format!("{}{}{}", q, body, q), "bitstring_underscores", false));
+            }
+        }
+    }
     // integers with a base prefix and no digits (lower-case prefixes: the upper-case ones are
     // a recorded finding, see `uppercase_empty_int`)
     for p in ["0b", "0o", "0x"] {
@@ -150,7 +159,7 @@ impl Space for Alone {
         format!("MALFORMED/alone/depth={}", self.depth)
     }
     fn describe(&self) -> Value {
-        json!({"space": "MALFORMED alone", "depth": self.depth, "spellings": self.cases().len(), "forms": ["alone", "after `x `", "after `3 `"]})
+        json!({"space": "MALFORMED alone", "depth": self.depth, "spellings": self.cases().len(), "forms": ["alone", "after `x `", "after `3 `", "as the value of an assignment (terminated forms)"], "oracles": ["lexical diagnostic on the lexeme", "gating of parse_check_lex and of the pipeline"]})
     }
     fn num_blocks(&self) -> u64 {
         (self.cases().len() as u64 + 255) / 256
@@ -158,15 +167,20 @@ impl Space for Alone {
     fn run_block(&self, block: u64, ctx: &mut Ctx) {
         let cases = self.cases();
         let lo_i = block as usize * 256;
-        for (m, class, _) in cases.iter().skip(lo_i).take(256) {
-            for pre in ["", "x ", "3 "] {
-                let text = format!("{}{}", pre, m);
-                let (lo, hi) = (pre.len(), text.len());
+        for (m, class, last_only) in cases.iter().skip(lo_i).take(256) {
+            for (pre, post) in [("", ""), ("x ", ""), ("3 ", ""), ("x = ", " ;")] {
+                if *last_only && !post.is_empty() {
+                    continue;
+                }
+                let text = format!("{}{}{}", pre, m, post);
+                let (lo, hi) = (pre.len(), pre.len() + m.len());
                 if ctx.begin(|| json!({"text": text, "lo": lo, "hi": hi, "class": class})) {
                     if !pre.is_empty() {
                         ctx.mark_nontrivial(fnv_str(&text));
                     }
                     check_malformed(&text, lo, hi, class, ctx);
+                    // a lexical fault gates the lex-checked parse and the pipeline
+                    gating_oracle(&text, ctx);
                 }
             }
         }
